@@ -11,6 +11,10 @@ open Pcore.Tls
 #print axioms C14_fork_isolated_partial
 #print axioms C14_child_view_stable
 #print axioms C14_child_invisible
+#print axioms C14_fork_isolated_defs
+#print axioms C14_fork_isolated
+#print axioms C14_child_defs_invisible
+#print axioms C14_loads_unaffected
 #print axioms C14_released
 #print axioms C14_released_goroutine
 #print axioms C14_before_not_released
